@@ -523,20 +523,21 @@ type Client struct {
 
 // Cluster is one simulated cluster with its clients.
 type Cluster struct {
-	Backend Backend
-	Clock   *Clock // shared virtual clock; nil on unistore
-	Trace   *Trace
-	Clients []*Client
-	mock    *mocktikv.Cluster
-	mockCli *mocktikv.RPCClient
-	mvcc    mocktikv.MVCCStore
-	uniCli  *unistore.RPCClient
-	uni     *unistore.Cluster
-	basePD  pd.Client
-	stores  []uint64
-	calls   int
-	runMu   sync.Mutex
-	runaway string
+	Backend    Backend
+	Clock      *Clock // shared virtual clock; nil on unistore
+	Trace      *Trace
+	Clients    []*Client
+	mock       *mocktikv.Cluster
+	mockCli    *mocktikv.RPCClient
+	mvcc       mocktikv.MVCCStore
+	uniCli     *unistore.RPCClient
+	uni        *unistore.Cluster
+	basePD     pd.Client
+	stores     []uint64
+	calls      int
+	runMu      sync.Mutex
+	runaway    string
+	storePanic string
 	// RespLevelLocks makes the store report a lock met by BatchGet / Scan as a response-level error without
 	// pairs - the form TiKV uses for in-memory (async-commit prewrite) locks - instead of a per-pair error
 	RespLevelLocks bool
@@ -580,6 +581,13 @@ func (cl *Cluster) noteRunaway(msg string) {
 	cl.runMu.Unlock()
 }
 
+// StorePanic reports the first panic inside the store implementation ("" = none): the case is void then.
+func (cl *Cluster) StorePanic() string {
+	cl.runMu.Lock()
+	defer cl.runMu.Unlock()
+	return cl.storePanic
+}
+
 // Runaway reports the first call that exceeded RunawayLimit ("" = none).
 func (cl *Cluster) Runaway() string {
 	cl.runMu.Lock()
@@ -587,10 +595,29 @@ func (cl *Cluster) Runaway() string {
 	return cl.runaway
 }
 
-type uniWrapper struct{ *unistore.RPCClient }
+type uniWrapper struct {
+	*unistore.RPCClient
+	cl *Cluster
+}
+
+// SendRequest shields the test process from panics inside unistore (e.g. its prewrite dereferences a missing
+// lock when a for-update-ts constraint is attached): the request fails, the first panic is kept for the report.
+func (c *uniWrapper) SendRequest(ctx context.Context, addr string, req *tikvrpc.Request, timeout time.Duration) (resp *tikvrpc.Response, err error) {
+	defer func() {
+		if r := recover(); r != nil {
+			c.cl.runMu.Lock()
+			if c.cl.storePanic == "" {
+				c.cl.storePanic = fmt.Sprintf("unistore panicked while executing %v: %v", req.Type, r)
+			}
+			c.cl.runMu.Unlock()
+			resp, err = nil, errors.Errorf("sim: store panicked: %v", r)
+		}
+	}()
+	return c.RPCClient.SendRequest(ctx, addr, req, timeout)
+}
 
 func (c *uniWrapper) SendRequestAsync(ctx context.Context, addr string, req *tikvrpc.Request, cb async.Callback[*tikvrpc.Response]) {
-	go func() { cb.Schedule(c.RPCClient.SendRequest(ctx, addr, req, tikv.ReadTimeoutShort)) }()
+	go func() { cb.Schedule(c.SendRequest(ctx, addr, req, tikv.ReadTimeoutShort)) }()
 }
 func (c *uniWrapper) SetEventListener(tikv.ClientEventListener) {}
 
@@ -624,7 +651,7 @@ func NewCluster(b Backend, nStores, nClients int) (*Cluster, error) {
 		cl.uniCli, cl.uni, cl.basePD = c, cluster, pdc
 		// unistore draws min-commit timestamps from its own wall-clock TSO, so the clients must use that same
 		// source (no virtual clock); lock expiry is simulated by skewing the clients' clock forward (Expire)
-		base = &uniWrapper{c}
+		base = &uniWrapper{c, cl}
 	}
 	for i := 0; i < nClients; i++ {
 		n := &Net{inner: base, cl: cl, id: i}
